@@ -7,3 +7,4 @@ pub mod gen;
 pub mod props;
 pub mod refmodel;
 pub mod rt;
+pub mod swarm;
